@@ -419,3 +419,80 @@ func isKeywordPredicate(f *ssa.Function) bool {
 	}
 	return false
 }
+
+// ---------------------------------------------------------------- the entry points answer only through the codec
+
+func init() {
+	register(&Rule{ID: "X.api-delegation", Min: 6,
+		Text: "every return of an entry point that can report success (a nil error, or a size) is reached only after the call of the codec routine it stands for: frugal.DecodeObject -> reflect.Decode -> (*tDecoder).Decode, frugal.EncodeObject -> reflect.Append -> appendStruct, frugal.EncodedSize -> reflect.EncodedSize -> (*tType).EncodedSize; a shortcut that answers from the first bytes or from the argument alone bypasses the required-field test, the argument checks and the descriptor",
+		Run:  ruleAPIDelegation})
+}
+
+func ruleAPIDelegation(c *Ctx) []Ob {
+	s := newSink(c, "X.api-delegation")
+	type ent struct {
+		pkg, fn string
+		target  func(f *ssa.Function) bool
+		tname   string
+	}
+	named := func(pkg, name string) func(f *ssa.Function) bool {
+		return func(f *ssa.Function) bool { return f != nil && fnPkgPath(f) == pkg && shortFn(f) == name }
+	}
+	ents := []ent{
+		{pkgRoot, "DecodeObject", named(pkgReflect, "Decode"), "reflect.Decode"},
+		{pkgRoot, "EncodeObject", named(pkgReflect, "Append"), "reflect.Append"},
+		{pkgRoot, "EncodedSize", named(pkgReflect, "EncodedSize"), "reflect.EncodedSize"},
+		{pkgReflect, "Decode", named(pkgReflect, "tDecoder.Decode"), "(*tDecoder).Decode"},
+		{pkgReflect, "Append", named(pkgReflect, "appendStruct"), "appendStruct"},
+		{pkgReflect, "EncodedSize", named(pkgReflect, "tType.EncodedSize"), "(*tType).EncodedSize"},
+	}
+	for _, e := range ents {
+		fn := c.Func(e.pkg, e.fn)
+		key := shortPkg(e.pkg) + "." + e.fn
+		if fn == nil {
+			s.bad(key, "-", "entry point not found")
+			continue
+		}
+		var calls []*ssa.BasicBlock
+		for _, b := range fn.Blocks {
+			for _, ins := range b.Instrs {
+				if call, ok := ins.(*ssa.Call); ok && e.target(call.Call.StaticCallee()) {
+					calls = append(calls, b)
+				}
+			}
+		}
+		nret := 0
+		for _, b := range fn.Blocks {
+			ret, ok := b.Instrs[len(b.Instrs)-1].(*ssa.Return)
+			if !ok || b == fn.Recover {
+				continue
+			}
+			nret++
+			if n := len(ret.Results); n > 0 && isErrorType(ret.Results[n-1].Type()) {
+				if definitelyNonNilErr(unspill(ret.Results[n-1], b), b) {
+					s.ok(key+":return", c.InstrPos(ret), "failure return")
+					continue
+				}
+			}
+			after := false
+			for _, cb := range calls {
+				if cb == b || cb.Dominates(b) {
+					after = true
+				}
+			}
+			s.check(after, key+":return", c.InstrPos(ret), "a return that may report success follows the call of "+e.tname,
+				"this return of "+key+" may report success without "+e.tname+" having been called: the answer does not come from the codec (required fields, argument checks and the descriptor are bypassed)")
+		}
+		if nret == 0 {
+			s.bad(key, c.Pos(fn.Pos()), "no return found")
+		}
+	}
+	return s.obs
+}
+
+func shortPkg(p string) string {
+	if i := strings.LastIndex(p, "/"); i >= 0 {
+		return p[i+1:]
+	}
+	return p
+}
